@@ -56,6 +56,9 @@ def gen_network(rng, n_fibers=2, n_chans=2, max_ops=12, srsw=True, allow_close=T
                 last = max([i for i, op in enumerate(fibers[w]) if op[0] == 'send' and op[1] == c], default=-1)
                 pos = rng.randint(last + 1, len(fibers[w]))
                 fibers[w].insert(pos, ('close', c))
+                if rng.random() < 0.5:
+                    counter[w] += 1
+                    fibers[w].insert(rng.randint(pos + 1, len(fibers[w])), ('send_closed', c, w * 1000 + 500 + counter[w]))
     # launches: every fiber > 0 is launched exactly once, by main or (nested) by an earlier fiber
     for f in range(1, nf):
         parent = 0
@@ -83,6 +86,11 @@ def fname(f):
 
 def to_source(net):
     out = []
+    heap = net.get('payload') == 'heap'
+    if heap:
+        # values travel as heap objects that only the channel buffer references
+        out.append('fn box(v) { return [v, "p${v}", (v,)]; }')
+        out.append('fn show(r) { if r == nil { return "nil"; } return r[0]; }')
     for c, cap in enumerate(net['chans']):
         out.append('let c%d = chan(%s);' % (c, '' if cap == 0 else str(cap)))
     nf = len(net['fibers'])
@@ -96,12 +104,18 @@ def to_source(net):
             k = op[0]
             who = fname(f)
             if k == 'send':
-                lines.append('%sprint("E %s sc c%d %d"); c%d <- %d; print("E %s sr c%d %d");' % (
-                    ind, who, op[1], op[2], op[1], op[2], who, op[1], op[2]))
+                val = ('box(%d)' % op[2]) if heap else str(op[2])
+                lines.append('%sprint("E %s sc c%d %d"); c%d <- %s; print("E %s sr c%d %d");' % (
+                    ind, who, op[1], op[2], op[1], val, who, op[1], op[2]))
+            elif k == 'send_closed':
+                val = ('box(%d)' % op[2]) if heap else str(op[2])
+                lines.append('%stry { c%d <- %s; print("E %s sa c%d %d accepted"); } catch e%d: Error { print("E %s sa c%d %d raised"); }' % (
+                    ind, op[1], val, who, op[1], op[2], op[2], who, op[1], op[2]))
             elif k == 'recv':
                 tmp += 1
-                lines.append('%sprint("E %s rc c%d"); let r%d = <- c%d; print("E %s rr c%d ${r%d}");' % (
-                    ind, who, op[1], tmp, op[1], who, op[1], tmp))
+                shown = ('${show(r%d)}' % tmp) if heap else ('${r%d}' % tmp)
+                lines.append('%sprint("E %s rc c%d"); let r%d = <- c%d; print("E %s rr c%d %s");' % (
+                    ind, who, op[1], tmp, op[1], who, op[1], shown))
             elif k == 'close':
                 lines.append('%sprint("E %s cc c%d"); c%d.close(); print("E %s cr c%d");' % (
                     ind, who, op[1], op[1], who, op[1]))
@@ -194,6 +208,9 @@ def kahn(net):
             return False
         if k == 'close':
             closed[op[1]] = True
+            pc[f] += 1
+            return True
+        if k == 'send_closed':
             pc[f] += 1
             return True
         if k == 'len':
@@ -291,6 +308,14 @@ class History:
                 per_chan_recv[c].append(v)
             elif kind == 'cr':
                 close_ret[int(e[2][1:])] = i
+            elif kind == 'sa':
+                c = int(e[2][1:])
+                if e[4] == 'accepted' and c in close_ret:
+                    self.problems.append(('send-after-close', 'send of %s on c%d was accepted although close had returned' % (e[3], c)))
+                elif e[4] == 'accepted':
+                    value_chan[int(e[3])] = c
+                    sent_call[int(e[3])] = i
+                    sent_ret[int(e[3])] = i
             elif kind == 'ln':
                 c, n, cap = int(e[2][1:]), int(e[3]), int(e[4])
                 want_cap = caps[c] if caps[c] else 1
